@@ -408,6 +408,7 @@ def pairing(old_ns, new_ns, modname):
     rnames = {}
     cellbad = set()
     kindbad = set()
+    kwbad = set()
 
     def patchable(o):
         return isinstance(o, (types.FunctionType, type, dict)) or type(o).__module__ == modname
@@ -425,6 +426,8 @@ def pairing(old_ns, new_ns, modname):
             return
         if isinstance(o, type) and isinstance(n, type) and kind_changed(o, n, modname):
             kindbad.add(top)
+        if isinstance(o, types.FunctionType) and isinstance(n, types.FunctionType) and o.__kwdefaults__ != n.__kwdefaults__:
+            kwbad.add(top)
         if isinstance(o, (list, tuple)):
             return  # containers other than dicts are replaced, not descended into
         if isinstance(o, (types.FunctionType, type)) and not same_shape(shape(o, modname), shape(n, modname)):
@@ -454,7 +457,7 @@ def pairing(old_ns, new_ns, modname):
     for i, s in rpairs.items():
         if len(s) > 1:
             bad |= rnames[i]
-    return sorted(bad), sorted(cellbad), sorted(kindbad)
+    return sorted(bad), sorted(cellbad), sorted(kindbad), sorted(kwbad)
 
 
 def kind_changed(old_val, fresh_val, modname):
@@ -850,9 +853,9 @@ class C16(Prop):
                     if isinstance(md[n], type) and md[n].__module__ == name and isinstance(fv, type) and fv.__module__ == name:
                         if layout_sig(md[n], name) != layout_sig(fv, name):
                             obs["layout_changed"] = True
-            multi, cellbad, kindbad, kindch = [], [], [], {}
+            multi, cellbad, kindbad, kwbad, kindch = [], [], [], [], {}
             if fresh is not None:
-                multi, cellbad, kindbad = pairing(old_ns, fresh.__dict__, name)
+                multi, cellbad, kindbad, kwbad = pairing(old_ns, fresh.__dict__, name)
                 for n, fv in fresh.__dict__.items():
                     if isinstance(fv, type) or type(fv).__module__ == name:
                         kindch[n] = kind_changed(old_ns.get(n), fv, name)
@@ -934,6 +937,7 @@ class C16(Prop):
                 fl["inmod_base"] = bool(ismod and inmod_base(fv, name))
                 fl["kind_changed"] = bool(ismod and kindch.get(n)) or n in kindbad
                 fl["calls_foreign"] = fl["foreign"]
+                fl["kwdefaults_changed"] = n in kwbad
                 fl["old_foreign_modified"] = n in obs.get("foreign_modified", [])
                 fl["slots_mixed"] = False
                 if ismod and not isinstance(fv, type):
@@ -963,7 +967,7 @@ class C16(Prop):
                 changed = False
                 for n, ds in deps.items():
                     for dn in ds:
-                        for k in ("multi_paired", "cell_unpatchable", "kind_changed", "calls_foreign", "old_foreign_modified"):
+                        for k in ("multi_paired", "cell_unpatchable", "kind_changed", "calls_foreign", "old_foreign_modified", "kwdefaults_changed"):
                             if flags[dn][k] and not flags[n][k]:
                                 flags[n][k] = True
                                 changed = True
@@ -1352,6 +1356,9 @@ C16.families = {
                                           or (f.get("what", "").startswith(("namespace differs", "captured reference", "captured method",
                                                                             "class relation differs", "aliasing among"))
                                               and bool((f.get("flags") or {}).get("old_foreign_modified")))),
+    "kwdefaults_not_updated": (lambda case, f: f.get("what", "").startswith(("namespace differs", "captured reference does not behave",
+                                                                              "captured method does not behave"))
+                               and bool((f.get("flags") or {}).get("kwdefaults_changed"))),
     "slots_instance_setattr_typeerror": C16._fam_raise("setattr expected 3 arguments"),
     "class_dict_descriptor_not_writable": C16._fam_raise("attribute '__dict__' of 'type' objects is not writable"),
     "bases_assignment_layout": C16._fam_raise("__bases__ assignment"),
